@@ -1,4 +1,5 @@
 import Gv.Model.Seq
+import Gv.Model.Compress
 /-!
 Implementation-shaped model of `align.seqbag` / `align.align` (property C01).
 
@@ -379,5 +380,23 @@ def concat (other : List (String × Seq)) (clen : Int) (calpha : Nat) (b : Bag) 
         let leng : Int := match step2.1.rows with | r :: _ => (r.seq.length : Int) | [] => -1
         let bad := step2.1.rows.any fun r => (r.seq.length : Int) != leng
         ({ step2.1 with length := leng }, bad)
+
+/-! ### in-place operations whose row-level model lives elsewhere (C06, C12, C13)
+
+Those models work on plain `(name, sequence)` rows; the container hands them `pairs b` and writes the
+resulting sequences back into its rows, position by position (Go: `seq.sequence = …` through the
+pointers of `sb.seqs`; ids, names and the name index are not touched). -/
+
+def withSeqs (rows : List Row) (ps : List (String × Seq)) : List Row :=
+  List.zipWith (fun r p => { r with seq := p.2 }) rows ps
+
+/-- `seqbag.ReverseComplement`: an error (nothing touched) unless the alphabet is NUCLEOTIDS; then the
+rows in order, each complemented in place and reversed; the first residue without a complement stops
+everything with an error (rows before it done, that row complemented up to the residue, not reversed) -/
+def reverseComplement (b : Bag) : Bag × Bool :=
+  if b.alphabet != NUCLEOTIDS then (b, true)
+  else
+    let r := revcompRows (pairs b)
+    ({ b with rows := withSeqs b.rows r.1 }, r.2)
 
 end Gv.Model
